@@ -7,7 +7,7 @@
 (* Random histories sample long behaviours; this family leaves no short     *)
 (* one out: every ordering slip that two or three operations on one or two  *)
 (* clusters can expose is exposed.                                          *)
-EXTENDS Integers, Sequences, FiniteSets, TLC, Json, IOUtils
+EXTENDS Integers, Sequences, SequencesExt, FiniteSets, TLC, Json, IOUtils
 
 Depth == IF "DEPTH" \in DOMAIN IOEnv THEN atoi(IOEnv.DEPTH) ELSE 3
 
@@ -38,4 +38,21 @@ Next == /\ Len(h) < Depth
 Spec == Init /\ [][Next]_h
 
 Emit == (Len(h) >= 1 /\ OK(h)) => PrintT("@@" \o ToJson([ops |-> h]))
+
+---------------------------------------------------------------------------
+(* Concurrent small scope (MODE=par): at most one operation first, then a   *)
+(* group of two (PARN=3: three) operations that overlap; reopen takes no    *)
+(* part in a group.  Groups are multisets - which member runs when is the   *)
+(* scheduler's choice, explored by schedule seeds and sweeps.               *)
+ParOps == Ops \ { [op |-> "r", g |-> 0, part |-> "-"] }
+ParN == IF "PARN" \in DOMAIN IOEnv THEN atoi(IOEnv.PARN) ELSE 2
+OpSeq == SetToSeq(ParOps)                    \* some fixed order
+Rank(o) == CHOOSE n \in 1 .. Len(OpSeq) : OpSeq[n] = o
+\* sorted tuples stand for multisets
+SortedTuples(n) == { t \in [1 .. n -> ParOps] : \A i \in 1 .. n - 1 : Rank(t[i]) <= Rank(t[i + 1]) }
+Groups == { t \in SortedTuples(ParN) : \E i \in 1 .. ParN : ~IsCtl(t[i]) \/ t[i].op = "f" }
+Pres == { << >> } \cup { <<o>> : o \in Ops \ Ctl } \cup { <<o, [op |-> "f", g |-> 0, part |-> "-"]>> : o \in Writes }
+\* (one expression mentioning h: TLC evaluates constant-level definitions at start-up)
+EmitParOnce == (h = << >>) => \A p \in Pres : \A t \in Groups : PrintT("@@" \o ToJson([pre |-> p, par |-> t]))
+
 =============================================================================
